@@ -31,7 +31,7 @@
 #include <fcntl.h>
 #include <time.h>
 
-#define MAXTH 128
+#define MAXTH 2048
 #define MAXOBJ 4096
 
 enum { ST_RUN = 0, ST_MUTEX, ST_COND, ST_ONCE, ST_SEM, ST_JOIN, ST_DONE };
@@ -266,6 +266,7 @@ int pthread_mutex_unlock(pthread_mutex_t *m) {
 	if (o->count > 0) { o->count--; return 0; }
 	o->locked = 0; o->owner = -1;
 	wake_all(ST_MUTEX, m);
+	point(); /* a thread that was waiting for the mutex may run first */
 	return 0;
 }
 
@@ -277,7 +278,11 @@ int pthread_cond_destroy(pthread_cond_t *c) { (void)c; return 0; }
 int pthread_cond_wait(pthread_cond_t *c, pthread_mutex_t *m) {
 	init();
 	point();
-	pthread_mutex_unlock(m);
+	/* unlock and start waiting atomically (no scheduling point in between) */
+	Obj *mo = obj(m, 1);
+	if (mo->count > 0) mo->count = 0;
+	mo->locked = 0; mo->owner = -1;
+	wake_all(ST_MUTEX, m);
 	block(ST_COND, c);
 	/* woken (signal, broadcast or spuriously): re-acquire the mutex */
 	Obj *o = obj(m, 1);
@@ -295,12 +300,14 @@ int pthread_cond_signal(pthread_cond_t *c) {
 	int w[MAXTH], n = 0;
 	for (int i = 0; i < nth; i++) if (ths[i].state == ST_COND && ths[i].waitobj == c) w[n++] = i;
 	if (n > 0) ths[w[rnd() % n]].state = ST_RUN; /* POSIX leaves the choice open */
+	point();
 	return 0;
 }
 int pthread_cond_broadcast(pthread_cond_t *c) {
 	init();
 	point();
 	wake_all(ST_COND, c);
+	point();
 	return 0;
 }
 
@@ -353,5 +360,6 @@ int sem_post(sem_t *s) {
 	point();
 	obj(s, 4)->count++;
 	wake_all(ST_SEM, s);
+	point(); /* the thread just released may run before the poster continues */
 	return 0;
 }
